@@ -64,6 +64,7 @@ pub struct GenCfg {
     /// The client's own CONNECT Receive Maximum / Maximum Packet Size (limits for the server).
     pub own_receive_max: Option<u16>,
     pub own_max_packet: Option<u32>,
+    pub own_topic_alias_max: Option<u16>,
 }
 
 impl GenCfg {
@@ -125,6 +126,7 @@ impl GenCfg {
             coalesce: rng.chance(1, 4),
             own_receive_max: None,
             own_max_packet: None,
+            own_topic_alias_max: None,
         }
     }
 
@@ -141,6 +143,8 @@ impl GenCfg {
         // the server's Receive Maximum limits what the client sends, never what it receives:
         // small values next to bursts of unreleased inbound QoS 2 messages
         c.receive_max = if rng.chance(1, 3) { Some(rng.range(1, 3) as u16) } else { None };
+        // one run in three allows the server to use topic aliases (messages with an empty topic)
+        c.own_topic_alias_max = if rng.chance(1, 3) { Some(rng.range(1, 20) as u16) } else { None };
         c
     }
 }
@@ -268,6 +272,7 @@ impl<'a> Gen<'a> {
             session_expiry: self.cfg.session_expiry,
             receive_maximum: self.cfg.own_receive_max,
             maximum_packet_size: self.cfg.own_max_packet,
+            topic_alias_maximum: self.cfg.own_topic_alias_max,
             ..Default::default()
         }
     }
@@ -581,7 +586,17 @@ impl<'a> Gen<'a> {
             self.push(Step::Broker { pkt: BrokerPkt::Publish { subs, qos, id, dup, retain, topic: format!("in/{n}"), payload, props }, chunks, hold: false });
             return;
         }
-        self.broker(BrokerPkt::Publish { subs, qos, id, dup, retain, topic: format!("in/{n}"), payload, props });
+        let mut topic = format!("in/{n}");
+        if self.cfg.own_topic_alias_max.is_some() && self.rng.chance(1, 8) {
+            // a message sent under a topic alias only: empty Topic Name plus the alias (legal
+            // once the client has announced a Topic Alias Maximum)
+            topic = String::new();
+            if props.u16(pid::TOPIC_ALIAS).is_none() {
+                let alias = self.rng.range(1, self.cfg.own_topic_alias_max.unwrap_or(1) as u64) as u16;
+                props.push(pid::TOPIC_ALIAS, PropVal::U16(alias));
+            }
+        }
+        self.broker(BrokerPkt::Publish { subs, qos, id, dup, retain, topic, payload, props });
     }
 
     /// Inbound QoS 2 publishes (injection index) the broker script has not released yet.
@@ -672,7 +687,11 @@ impl<'a> Gen<'a> {
             return;
         }
         let sub = *self.rng.pick(&subs);
-        let n = *self.rng.pick(&[15usize, 16, 17, 31, 32, 33, 63, 64, 65, 100, 130]);
+        let mut n = *self.rng.pick(&[15usize, 16, 17, 31, 32, 33, 63, 64, 65, 100, 130]);
+        if self.rng.chance(1, 30) {
+            // rarely a backlog beyond a thousand (bounded queues, u8/u10 counters)
+            n = *self.rng.pick(&[255usize, 256, 257, 1023, 1024, 1025, 1026, 1100]);
+        }
         for _ in 0..n {
             self.inbound_publish_to(sub);
         }
